@@ -155,3 +155,42 @@ contract("HpcSubmitterT._create_run_script", file="jade/hpc/hpc_submitter.py", q
              'ghost.script_file == filename and ghost.script_text == uf("join", "Str", "\\n", text) + "\\n"',
          ],
          modifies=["ghost.script_text", "ghost.script_file"])
+
+# ---- HpcManager.submit: the batch is submitted through ITS group's interface (C07/C18) --------------------------------
+record("HpcIntf", file="jade/hpc/hpc_manager_interface.py", cls="HpcManagerInterface", check_attrs=False, fields={"g_id": "Opaque"})
+record("HpcManagerV", file="jade/hpc/hpc_manager.py", cls="HpcManager", fields={
+    "_output": "Opaque", "_configs": "Opaque", "_intfs": "Dict[Name,Ref[HpcIntf]]", "_hpc_type": "Opt[Enum[HpcType]]"})
+ghost("script_by", "Ref[HpcIntf]")       # interface object that wrote the last submission script
+ghost("script_args", "Tuple[Opaque,Opaque,Opaque,Opaque]")
+ghost("submit_by", "Ref[HpcIntf]")       # interface object that ran the last sbatch
+ghost("submit_file", "Opaque")
+contract("HpcIntf.check_storage_configuration", kind="assumed", params=[("self", "Ref[HpcIntf]")], note="no-op for SLURM")
+contract("HpcIntf.create_submission_script", kind="assumed",
+         params=[("self", "Ref[HpcIntf]"), ("name", "Opaque"), ("script", "Opaque"), ("filename", "Opaque"), ("path", "Opaque")],
+         ensures=["ghost.script_by == self and ghost.script_args == (name, script, filename, path)"], modifies=["ghost.script_by", "ghost.script_args"],
+         note="SlurmManager.create_submission_script = _create_submission_script_text (verified above) written to `filename`")
+contract("HpcIntf.submit", kind="assumed", params=[("self", "Ref[HpcIntf]"), ("filename", "Opaque")], returns="Tuple[Enum[Status],Opt[Name],Opaque]",
+         ensures=["ghost.submit_by == self and ghost.submit_file == filename and ghost.sbatch_n == old(ghost.sbatch_n) + 1"],
+         modifies=["ghost.submit_by", "ghost.submit_file", "ghost.sbatch_n"], note="SlurmManager.submit (verified above)")
+contract("HpcManagerV._wait_for_completion", kind="assumed", params=[("self", "Ref[HpcManagerV]"), ("job_id", "Opt[Name]")], note="polling loop (wait=True is not used by the submitter)")
+contract("HpcManagerV._get_interface", file="jade/hpc/hpc_manager.py", qualname="HpcManager._get_interface",
+         params=[("self", "Ref[HpcManagerV]"), ("submission_group_name", "Opt[Name]", "None")], returns="Ref[HpcIntf]",
+         requires=["implies(not isnone(submission_group_name), val(submission_group_name) in self._intfs)", "not empty(self._intfs)"],
+         ensures=["implies(not isnone(submission_group_name), result == self._intfs[val(submission_group_name)])",
+                  "exists(k, self._intfs, self._intfs[k] == result)"])
+contract("HpcManagerV.submit", file="jade/hpc/hpc_manager.py", qualname="HpcManager.submit",
+         params=[("self", "Ref[HpcManagerV]"), ("directory", "Opaque"), ("name", "Opaque"), ("script", "Opaque"), ("submission_group_name", "Name"),
+                 ("wait", "bool", "False"), ("keep_submission_script", "bool", "True"), ("dry_run", "bool", "False")],
+         returns="Tuple[Opaque,Enum[Status]]",
+         requires=["submission_group_name in self._intfs"],
+         ensures=[
+             # C07/C18: the script is written, and the batch submitted, through the interface built from THIS group's HPC config
+             "ghost.script_by == self._intfs[submission_group_name]",
+             "ghost.script_args[0] == name and ghost.script_args[1] == script and ghost.script_args[3] == self._output",
+             "implies(not dry_run, ghost.submit_by == self._intfs[submission_group_name] and ghost.submit_file == ghost.script_args[2] "
+             "and ghost.sbatch_n == old(ghost.sbatch_n) + 1)",
+             # C07 dry run: the script is written but nothing is handed to the scheduler
+             "implies(dry_run, ghost.sbatch_n == old(ghost.sbatch_n) and result[1] == Status.GOOD)",
+         ],
+         raises={"FileNotFoundError": {"ensures": [], "frame": False}},
+         modifies=["ghost.script_by", "ghost.script_args", "ghost.submit_by", "ghost.submit_file", "ghost.sbatch_n", "ghost.fs"])
